@@ -4,7 +4,7 @@
    reference decoding m" is the relation  msg_wf m /\ bytes = serialize p m  over the
    independent encoder of Wire/Pdu.v.  Statements only; proofs in Wire/*.v. *)
 From LibcoapV Require Import Base.Tactics Base.Bytes Wire.OptCodec Wire.OptCodecProofs Wire.Pdu
-  Wire.PduProofs Wire.ParseSound Wire.Frame Wire.FrameProofs.
+  Wire.PduProofs Wire.ParseSound Wire.Frame Wire.FrameProofs Wire.RfcLimits Wire.RfcLimitsProofs.
 Local Open Scope Z_scope.
 
 (* soundness on datagram transports: accepted => well-formed, and the accessors' view is the
@@ -50,6 +50,36 @@ Theorem C03_unique : forall m1 m2,
 Proof. exact serialize_udp_unique. Qed.
 Print Assumptions C03_unique.
 
+(* "within the per-option length limits": the limits the decoder enforces ([limit_ok], the table
+   transcribed from coap_pdu_parse_opt_base / _csm and swept against the C for every option
+   number) are the limits of the RFCs (Wire/RfcLimits.v, written down from the RFC tables), for
+   every code, option number and length - so soundness and completeness above hold with the
+   RFCs' limits in place of the code's *)
+Theorem C03_limits_are_the_rfc_limits : forall code n l,
+  limit_ok code n l = rfc_limit_ok code n l.
+Proof. exact limit_ok_is_rfc. Qed.
+Print Assumptions C03_limits_are_the_rfc_limits.
+
+Theorem C03_limits_ok_is_rfc : forall code os,
+  limits_ok code os = forallb (fun o => rfc_limit_ok code (fst o) (len (snd o))) os.
+Proof. exact limits_ok_is_rfc. Qed.
+Print Assumptions C03_limits_ok_is_rfc.
+
+(* the table of the pinned tree as found differed from the RFCs at exactly four option numbers,
+   in both directions (repaired: known_findings.d/C03.json) *)
+Theorem C03_limits_as_found_agree_elsewhere : forall n,
+  n <> 15 -> n <> 19 -> n <> 31 -> n <> 252 -> base_limit_as_found n = rfc_base_limit n.
+Proof. exact as_found_agrees_elsewhere. Qed.
+Print Assumptions C03_limits_as_found_agree_elsewhere.
+
+Theorem C03_limits_as_found_refuted :
+  in_range (base_limit_as_found 15) 0 = false /\ in_range (rfc_base_limit 15) 0 = true /\
+  in_range (base_limit_as_found 252) 0 = true /\ in_range (rfc_base_limit 252) 0 = false /\
+  in_range (base_limit_as_found 19) 4 = true /\ in_range (rfc_base_limit 19) 4 = false /\
+  in_range (base_limit_as_found 31) 4 = true /\ in_range (rfc_base_limit 31) 4 = false.
+Proof. exact as_found_refuted. Qed.
+Print Assumptions C03_limits_as_found_refuted.
+
 (* explicit rejections *)
 Theorem C03_reject_reserved_delta : forall b0 r,
   0 <= b0 < 256 -> b0 / 16 = 15 -> opt_parse (b0 :: r) = None.
@@ -79,6 +109,13 @@ Proof. vm_compute. reflexivity. Qed.
 Example C03_nonempty_empty : parse UDP [64; 0; 18; 52; 177; 97] = None.
 Proof. vm_compute. reflexivity. Qed.
 Example C03_delta_wrap_rejected : parse UDP [64; 1; 18; 52; 224; 254; 255] = None.
+Proof. vm_compute. reflexivity. Qed.
+Example C03_empty_uri_query_accepted :
+  parse UDP [64; 1; 18; 52; 177; 97; 64] = Some (mkMsg 0 1 4660 [] [(11, [97]); (15, [])] []).
+Proof. vm_compute. reflexivity. Qed.
+Example C03_empty_echo_rejected : parse UDP [64; 1; 18; 52; 208; 239] = None.
+Proof. vm_compute. reflexivity. Qed.
+Example C03_long_qblock2_rejected : parse UDP [64; 1; 18; 52; 212; 18; 0; 0; 0; 6] = None.
 Proof. vm_compute. reflexivity. Qed.
 Example C03_accepts_something :
   parse UDP [66; 1; 18; 52; 7; 8; 177; 97; 255; 1] = Some (mkMsg 0 1 4660 [7; 8] [(11, [97])] [1]).
